@@ -346,7 +346,16 @@ warning:
   - data-required
   - security-class
   - no-blank
+  - unique-reached
 validations:
+  unique-reached:
+    targetClass: ex.T
+    message: values reached must be unique
+    propertyConstraints:
+      ex.p / ex.r:
+        uniqueValues: true
+      ex.q / ex.p | ex.q / ex.q:
+        uniqueValues: true
   no-blank:
     targetClass: ex.T
     message: values must not contain a blank
